@@ -737,6 +737,16 @@ class Interp:
                                         z3.Const(fresh_name("lit_a"), oty.asort)))
         self.unsupported(e, "list literal")
 
+    def ex_Set(self, e):
+        items = [self.ctx.deref(self.eval(x)) for x in e.elts]
+        if not items or not all(isinstance(x, VElem) and x.ty is items[0].ty for x in items):
+            self.unsupported(e, "set display")
+        ty = TSet(items[0].ty)
+        t = z3.K(items[0].ty.sort, z3.BoolVal(False))
+        for x in items:
+            t = z3.Store(t, x.t, True)
+        return VSet(ty, t)
+
     def ex_Dict(self, e):
         hook = getattr(self.c, "dict_literal", None)
         if hook is not None:
